@@ -28,7 +28,9 @@ THEOREMS = [
     "SymmModel.C01.expandDims_some_valid",
     "SymmModel.C01.expandDims_odd_charge_invalid",
     "SymmModel.C01.squeeze_valid",
-    "SymmModel.C01.squeeze_needs_phase_keys_in_tables",
+    "SymmModel.C01.squeeze_valid_any_phases",
+    "SymmModel.C01.squeeze_phase_keys_stored",
+    "SymmModel.C01.squeeze_drops_stale_phase_keys",
     "SymmModel.C01.tensordotBlockwise_valid",
     "SymmModel.C01.tensordotBlockwise_valid_abelian_part",
     "SymmModel.C01.tensordotA_valid",
